@@ -23,6 +23,8 @@ func main() {
 		extract(os.Args[2], os.Args[3])
 	case "corr":
 		corr.Main(spec(), os.Args[2:])
+	case "worker":
+		workerMain()
 	default:
 		os.Exit(2)
 	}
